@@ -54,6 +54,7 @@ type c18Params struct {
 	Handled int    `json:"handled,omitempty"` // run: 0 no, 1 a handled exception earlier in main, 2 right before the fault
 	Site    int    `json:"site,omitempty"`    // run: 0 mixed call-site forms, k>0 every call site of form k-1
 	NoTrail bool   `json:"no_trailing_eol,omitempty"`
+	Other   int    `json:"other_handlers,omitempty"` // run: 1 = every method on the way (and the main program) has a 拦截 block for ANOTHER exception class
 	Rune    int    `json:"rune,omitempty"` // wid: the character in front of the offending one
 }
 
@@ -625,6 +626,18 @@ func c18Build(p c18Params) (pr c18Prog) {
 	}
 	callLine := make([]int, D+1)
 	callText := make([]string, D+1)
+	if p.Other == 1 {
+		// an exception class of the program's own: the handlers below are for IT, the fault is not one
+		main.add(0, "定义缺货：")
+		main.add(1, "其内容 = “”")
+		main.add(0, "")
+	}
+	otherHandler := func(f *c18File) {
+		if p.Other == 1 {
+			f.add(1, "拦截缺货：")
+			f.add(2, "输出 -9")
+		}
+	}
 	for l := 1; l <= D; l++ {
 		f := fileOf(l)
 		f.add(0, "如何"+c18Names[l]+"？")
@@ -632,9 +645,11 @@ func c18Build(p c18Params) (pr c18Prog) {
 			f.add(1, fmt.Sprintf("令子 = %d", l))
 			callLine[l], callText[l] = c18CallSite(f, 1, c18Names[l+1], c18SiteForm(p, l))
 			f.add(1, "输出 0")
+			otherHandler(f)
 			f.add(0, "")
 		} else {
 			b.body(f, 1)
+			otherHandler(f)
 			if f == main {
 				f.add(0, "")
 			}
@@ -649,6 +664,10 @@ func c18Build(p c18Params) (pr c18Prog) {
 	} else {
 		callLine[0], callText[0] = c18CallSite(main, 0, c18Names[1], c18SiteForm(p, 0))
 		main.add(0, "（显示：“终”）")
+		if p.Other == 1 {
+			main.add(0, "拦截缺货：")
+			main.add(1, "输出 -9")
+		}
 	}
 	if p.NoTrail && b.fLine != len(faultFile.lines) {
 		panic("c18 generator: no_trailing_eol needs the fault on the last line")
@@ -1119,6 +1138,10 @@ func c18Enumerate(tier string, visit func(p c18Params)) {
 									}
 									for _, nt := range trails {
 										visit(c18Params{Mode: "run", Kind: kind, Tmpl: ti, Slot: si, Ctx: cc.ctx, CtxPos: cc.pos, EOL: eol, Depth: x.d, Mod: x.m, Handled: h, Site: site, NoTrail: nt})
+									}
+									// every method on the way (and the program) handles ANOTHER exception class
+									if x.d >= 1 && len(cc.ctx) == 0 && site == 0 {
+										visit(c18Params{Mode: "run", Kind: kind, Tmpl: ti, Slot: si, EOL: eol, Depth: x.d, Mod: x.m, Handled: h, Other: 1})
 									}
 								}
 							}
